@@ -25,7 +25,7 @@ func (sel *Selection) Find(path string) (*Selection, error) {
 	if err != nil {
 		return nil, err
 	}
-	if qmark := strings.IndexRune(path, '?'); qmark >= 0 {
+	if qmark := strings.IndexRune(p, '?'); qmark >= 0 {
 		// use URL parser just to decode the query parameters
 		u, err := url.Parse(p)
 		if err != nil {
@@ -34,10 +34,10 @@ func (sel *Selection) Find(path string) (*Selection, error) {
 		if err = BuildConstraints(s, u.Query()); err != nil {
 			return nil, err
 		}
-		path = path[:qmark]
+		p = p[:qmark]
 	}
 
-	targetSlice, err := parseUrlPath(path, sel.Meta())
+	targetSlice, err := parseUrlPath(p, s.Meta())
 	if err != nil {
 		return nil, err
 	}
